@@ -16,14 +16,14 @@ def check(ctx):
     r = E.discover(ctx.model)
     rr = R.discover(ctx.model, r)
     ur = make_user_reaching(ctx.model)
-    R.rule_forwarding(ctx, "C10.F1", rr)
-    R.rule_thread_sites(ctx, "C10.F2", rr)
-    E.rule_sentinels(ctx, "C10.F2", r)
-    E.rule_nothing_blocks_under_lock(ctx, "C10.F3", r, ur)
-    E.rule_queue_internals(ctx, "C10.F3", r)
-    R.rule_workers_wait_only_for_work(ctx, "C10.F4", rr, ur)
-    E.rule_stop_discipline(ctx, "C10.F5", r)
-    E.rule_atomic_counter(ctx, "C10.F5", r)
-    E.rule_one_callback_per_dequeue(ctx, "C10.F5", r)
-    R.rule_retry_loop(ctx, "C10.F6", rr)
-    R.rule_retry_coverage(ctx, "C10.F7", rr)
+    ctx.run(R.rule_forwarding, "C10.F1", rr)
+    ctx.run(R.rule_thread_sites, "C10.F2", rr)
+    ctx.run(E.rule_sentinels, "C10.F2", r)
+    ctx.run(E.rule_nothing_blocks_under_lock, "C10.F3", r, ur)
+    ctx.run(E.rule_queue_internals, "C10.F3", r)
+    ctx.run(R.rule_workers_wait_only_for_work, "C10.F4", rr, ur)
+    ctx.run(E.rule_stop_discipline, "C10.F5", r)
+    ctx.run(E.rule_atomic_counter, "C10.F5", r)
+    ctx.run(E.rule_one_callback_per_dequeue, "C10.F5", r)
+    ctx.run(R.rule_retry_loop, "C10.F6", rr)
+    ctx.run(R.rule_retry_coverage, "C10.F7", rr)
